@@ -675,8 +675,18 @@ func (s *Service) handleBackup(w http.ResponseWriter, r *http.Request, qp QueryP
 	}
 	addBackupFormatHeader(w, qp)
 
-	addr, err := s.proxy.Backup(r.Context(), br, w, makeCredentials(r), qp.Timeout(defaultTimeout), qp.Redirect())
+	cw := &countingWriter{w: w}
+	addr, err := s.proxy.Backup(r.Context(), br, cw, makeCredentials(r), qp.Timeout(defaultTimeout), qp.Redirect())
 	if err != nil {
+		if cw.n > 0 {
+			// Part of the backup has already been sent to the client, along with
+			// a 200 status. It is too late to report the failure with a status
+			// code, and appending an error message to the data already sent would
+			// leave the client with what looks like a successful backup. Abort
+			// the response so the client sees the transfer fail.
+			s.logger.Printf("backup failed after %d bytes were sent, aborting response: %s", cw.n, err.Error())
+			panic(http.ErrAbortHandler)
+		}
 		if errors.Is(err, proxy.ErrNotLeader) {
 			s.DoRedirect(w, r, qp)
 			return
@@ -700,6 +710,19 @@ func (s *Service) handleBackup(w http.ResponseWriter, r *http.Request, qp QueryP
 	w.Header().Set(ServedByHTTPHeader, addr)
 
 	s.lastBackup = time.Now()
+}
+
+// countingWriter counts the bytes written through it.
+type countingWriter struct {
+	w io.Writer
+	n int64
+}
+
+// Write writes p to the underlying writer.
+func (c *countingWriter) Write(p []byte) (int, error) {
+	n, err := c.w.Write(p)
+	c.n += int64(n)
+	return n, err
 }
 
 // handleLoad loads the database from the given SQLite database file or SQLite dump.
